@@ -175,12 +175,17 @@ class TheCheck(Check):
         sts.append(Stream("query-any-separator", qs))
         from checks import mtpure
         sts.append(mtpure.stream(self))      # hidden shared state shows only with concurrent callers
+        if self.tier != "quick":
+            sts.append(Stream("huge", ["hugecodec 5000011", "hugecodec 1073741827"], nomodel=True,
+                              note="self-checking round trips of 5 MB and 2^30+3 bytes through each codec (hex text of 2^31+6 characters)"))
         return sts
 
     def judge(self, op, line):
         w = op.split()
         f = line.split()
         kind = w[0]
+        if kind == "hugecodec":
+            return None if line == "ok" else "self-checking pass `%s`: %s" % (op, line[:200])
         if line.startswith("fault"):
             return "decoder reported %s on %s" % (line, op)
         if kind in ("urlrt", "b64rt", "hexrt"):
